@@ -538,7 +538,11 @@ def k_uslp_history(ctx, seed, nsteps):
         return
     for i in range(nsteps):
         how = r.choice(("new_bytes", "new_bytes", "new_bytearray", "same_object_changed_in_place"))
-        if how == "same_object_changed_in_place" and isinstance(fr.tfdf.tfdz, bytearray):
+        if not trunc and r.random() < 0.08:
+            # a data zone that makes the whole frame exactly as large as the length field can say (65536 octets, field 0xFFFF), or one less
+            how = "to_largest_frame"
+            fr.tfdf.tfdz = rand_bytes(r, r.choice((65536, 65536, 65535)) - (fr.len() - len(fr.tfdf.tfdz)))
+        elif how == "same_object_changed_in_place" and isinstance(fr.tfdf.tfdz, bytearray):
             # the caller's own mutable data zone, extended or cut in place and assigned again to refresh the object
             z = fr.tfdf.tfdz
             if r.random() < 0.5 or not z:
